@@ -190,6 +190,28 @@ def forbidden_tokens(paths):
     return hits
 
 
+class OracleTimeout(BaseException):
+    """raised by the interval timer inside an oracle call (BaseException: the oracles' own `except Exception`
+    clauses must not swallow it)"""
+
+
+import contextlib
+import signal
+
+
+@contextlib.contextmanager
+def time_limit(seconds):
+    def handler(sig, frame):
+        raise OracleTimeout()
+    old = signal.signal(signal.SIGALRM, handler)
+    signal.setitimer(signal.ITIMER_REAL, max(1.0, float(seconds)))
+    try:
+        yield
+    finally:
+        signal.setitimer(signal.ITIMER_REAL, 0)
+        signal.signal(signal.SIGALRM, old)
+
+
 def audit_axioms(prop, mods, theorems, timeout, thm_mod=None):
     """#print axioms for every theorem; returns {name: set(axioms) | None (missing)}"""
     if not theorems:
@@ -508,7 +530,21 @@ def run_check(prop, spec, tier, seed):
             fns = fn if isinstance(fn, (list, tuple)) else [fn]
             res = dict(evaluations=0, distinct_nontrivial=0, failures=[], samples=[], worst=None)
             for f1 in fns:
-                r1 = f1(rng, budget * (3 if broken else 1) / len(fns), big or broken)
+                # wall-time limits per oracle function: the search for a failing input (deep mode, slow solver
+                # classes included) must not turn a quick check into an hour-long one
+                lim = float(os.environ.get('VERIF_ORACLE_SECONDS', '1800' if big else ('120' if broken else '400')))
+                try:
+                    with time_limit(lim):
+                        r1 = f1(rng, budget * (3 if broken else 1) / len(fns), big or broken)
+                except OracleTimeout:
+                    R.notes.append('oracle %s of %s stopped after %.0fs (deep=%s)' % (getattr(f1, '__name__', '?'), o['id'], lim, big or broken))
+                    r1 = dict(evaluations=0, failures=[])
+                    if broken and not big:
+                        try:       # the every-run depth still fits
+                            with time_limit(lim):
+                                r1 = f1(rng, budget / len(fns), False)
+                        except OracleTimeout:
+                            r1 = dict(evaluations=0, failures=[])
                 res['evaluations'] += r1.get('evaluations', 0)
                 res['distinct_nontrivial'] += r1.get('distinct_nontrivial', r1.get('evaluations', 0))
                 res['samples'] += r1.get('samples', [])
@@ -553,7 +589,14 @@ def run_check(prop, spec, tier, seed):
             try:
                 fns = fn if isinstance(fn, (list, tuple)) else [fn]
                 for f1 in fns:
-                    r1 = f1(rng, budget * 3 / len(fns), True)
+                    left = float(os.environ.get('VERIF_SEARCH_SECONDS', '150')) - (time.time() - t_search)
+                    if left <= 1:
+                        break
+                    try:
+                        with time_limit(min(left, 90.0)):
+                            r1 = f1(rng, budget * 3 / len(fns), True)
+                    except OracleTimeout:
+                        continue
                     R.ev['evaluations'] += r1.get('evaluations', 0)
                     R.ev['distinct_nontrivial'] += r1.get('distinct_nontrivial', r1.get('evaluations', 0))
                     for fl in r1.get('failures', []):
